@@ -672,6 +672,38 @@ macro_rules! c17_cap {
                 $out.case("l.hist", l(vec![wv(&words_of(&x0)), opsv()]), wv(&words_of(&x)));
                 $out.case("s.l.hist", l(vec![dna(&bs), opsv()]), l(vec![nu(x.len()), dna(&xb)]));
                 $out.case("l.read", l(vec![wv(&words_of(&x))]), l(vec![nu(x.len()), dna(&xb), b(true)]));
+                // k-mer extraction (C17: agrees with the plain string), every width class, positions crossing words
+                macro_rules! lk {
+                    ($t:ty) => {{
+                        let k = <$t as debruijn::Kmer>::k();
+                        if x.len() >= k {
+                            let mut poss = vec![0usize, x.len() - k, $rng.below(x.len() - k + 1)];
+                            for w in 1..$n {
+                                // the k-mer straddles the boundary between word w-1 and word w
+                                if 32 * w >= 1 && 32 * w + 1 <= x.len() {
+                                    let lo = (32 * w + 1).saturating_sub(k);
+                                    let hi = std::cmp::min(32 * w - 1, x.len() - k);
+                                    if lo <= hi {
+                                        poss.push($rng.range(lo, hi));
+                                    }
+                                }
+                            }
+                            for pos in poss {
+                                let q: $t = x.get_kmer(pos);
+                                $out.case("s.kmer_at", l(vec![nu(k), dna(&xb), nu(pos)]), dna(&bases_of(&q)));
+                                $out.case("l.get_kmer", l(vec![nu(<$t as KS>::W), nu(k), wv(&words_of(&x)), nu(pos)]), n(q.st()));
+                            }
+                        }
+                    }};
+                }
+                lk!(debruijn::kmer::Kmer4);
+                lk!(debruijn::kmer::Kmer8);
+                lk!(debruijn::kmer::Kmer12);
+                lk!(debruijn::kmer::Kmer16);
+                lk!(debruijn::kmer::Kmer20);
+                lk!(debruijn::kmer::Kmer30);
+                lk!(debruijn::kmer::Kmer32);
+                lk!(debruijn::kmer::Kmer48);
                 // equality / hash against another route to the same bases and a near miss
                 let y = L::from_slice(&xb);
                 $out.case("s.eqhash", l(vec![dna(&xb), dna(&xb)]), l(vec![b(x == y), b(feed(&x) == feed(&y))]));
